@@ -745,6 +745,15 @@ func (env *Env) call(e *Expr) Value {
 			v := sub.eval(args[0])
 			env.defs = append(env.defs, sub.defs[len(env.defs):]...)
 			return v
+		case "cur":
+			// cur(x): the CURRENT value of the local/parameter cell x (in ensures a parameter name denotes its entry value)
+			if args[0].Kind != EIdent || env.fr == nil {
+				panic(specErr("cur(identifier)"))
+			}
+			if v, ok := env.local(args[0].Op); ok {
+				return v
+			}
+			panic(specErr("cur(%s): no such local", args[0].Op))
 		case "prev":
 			if env.prev == nil {
 				panic(specErr("prev() outside a loop step clause"))
@@ -875,6 +884,14 @@ func (env *Env) call(e *Expr) Value {
 				return Value{T: T, Tm: Eq(IfVal(v.Tm), IntLit(1))}
 			}
 			return Value{T: T, Tm: env.st.uf("iunbox_"+sanitize(string(s)), s, IfVal(v.Tm))}
+		case "nrecv", "nsent":
+			v := env.eval(args[0])
+			nm := "NCR"
+			if fnE.Op == "nsent" {
+				nm = "NCS"
+			}
+			h := env.st.heapGet(nm, ArraySort(SInt, SInt))
+			return Value{T: mathInt, Tm: Select(h, v.Tm)}
 		case "ncalls":
 			// ghost call counter of a func-valued field or callee key
 			return env.ncalls(args[0])
